@@ -55,6 +55,9 @@ def pdict(case):
         return dict(model()["m"]["p_defaults"])
     d = dict(model()["m"]["p_defaults"])
     d.update(case["p"])
+    # physically meaningful parameter sets only (also under shrinking / rounding of a failing case)
+    require(all(d[k] > 1e-9 for k in ("m", "g", "Jx", "Jy", "Jz", "CT", "tau_up", "tau_down", "rho", "S")))
+    require(all(d["l_motor_%d" % i] > 1e-3 for i in range(4)))
     return d
 
 
